@@ -53,7 +53,8 @@ def structural_checks(t, is_mapping, use_check_module=True, sizes=True):
     return errs, w
 
 
-def attach_db(ls, rec, p_refuse=0.05, p_commit=0.3, p_sweep=0.3):
+def attach_db(ls, rec, p_refuse=0.05, p_commit=0.3, p_sweep=0.3,
+              p_loadfail=0.05):
     """Put the (still empty, never stored) container of a LockStep into a
     MiniDB: it is committed and swept between calls and the data manager now
     and then refuses a read dependency.  F22 / F34 shapes are never
@@ -65,6 +66,7 @@ def attach_db(ls, rec, p_refuse=0.05, p_commit=0.3, p_sweep=0.3):
     conn.commit()
     ls.fault_conn = conn
     ls.p_refuse = p_refuse
+    ls.p_loadfail = p_loadfail
     state = {'stop': False}
     impl = ls.impl
 
@@ -125,6 +127,13 @@ class LockStep:
         # (data-manager fault): set by checks that store the container
         self.fault_conn = None
         self.p_refuse = 0.0
+        # ... and whose setstate() may be made to refuse the n-th load of a
+        # single-key call made right after a cache sweep
+        self.p_loadfail = 0.0
+        # node-size limits hold for containers filled through the API; an
+        # insert whose split was cut short by a refused load legitimately
+        # leaves an over-full node behind (then the limits are off)
+        self.check_sizes = True
 
     def describe(self):
         return dict(family=self.fam.name, kind=self.kind, impl=self.impl,
@@ -184,13 +193,25 @@ class LockStep:
         refuse = (self.fault_conn is not None and self.is_tree and
                   op in SINGLE_KEY_OPS and op in MUTATING_OPS and
                   self.rng.random() < self.p_refuse)
+        loadfail = (not refuse and self.fault_conn is not None and
+                    self.p_loadfail and op in SINGLE_KEY_OPS and
+                    self.rng.random() < self.p_loadfail)
         if refuse:
             self.fault_conn.fail_read_current = 1
+        if loadfail:
+            # everything that is committed becomes a ghost; the n-th load
+            # the call needs is refused by the data manager
+            self.fault_conn.cache.minimize()
+            self.fault_conn.fail_setstate = self.rng.randint(1, 6)
         try:
             ro = call(self.c, op, rargs)
         finally:
             if refuse:
                 self.fault_conn.fail_read_current = 0
+            if loadfail:
+                self.fault_conn.fail_setstate = 0
+        if loadfail and ro[0] == 'exc' and ro[1] == 'DMBoom':
+            return self._after_refused_load(op, args, rargs, margs, before)
         if refuse and ro[0] == 'exc' and ro[1] == 'DMBoom':
             # the data manager refused the read dependency: the call must
             # have failed cleanly
@@ -208,7 +229,8 @@ class LockStep:
                                expected=brief(self._pre_contents, 300))
                 return False
             errs, w = structural_checks(self.c, self.is_mapping,
-                                        self.use_check_module)
+                                        self.use_check_module,
+                                        sizes=self.check_sizes)
             if errs:
                 self.violation('structure', op=op, args=brief(args),
                                checker=errs[0][0], errors=errs[:4],
@@ -292,7 +314,8 @@ class LockStep:
         if self.is_tree and (op in MUTATING_OPS):
             if self.structure:
                 errs, w = structural_checks(self.c, self.is_mapping,
-                                            self.use_check_module)
+                                            self.use_check_module,
+                                            sizes=self.check_sizes)
                 rec.ev('structure-checks')
                 if errs:
                     self.violation('structure', op=op, args=brief(args),
@@ -334,6 +357,63 @@ class LockStep:
             if h(self, op, args) is False:
                 return False
         return True
+
+    def _after_refused_load(self, op, args, rargs, margs, before):
+        """The data manager refused to load a node in the middle of a
+        single-key call (DMBoom reached the caller).  The container must be
+        sound, hold the previous contents or the completed change, and none
+        of its nodes may stay pinned."""
+        rec = self.rec
+        rec.evaluations += 1
+        rec.ev(self.impl + ':load-refused')
+        rec.ev(self.impl + ':load-refused:' + ('write' if op in MUTATING_OPS
+                                               else 'read'))
+        pinned = self.fault_conn.sticky_objects()
+        if pinned:
+            self.violation('node-left-pinned', op=op, args=brief(args),
+                           after='refused load',
+                           nodes=[type(o).__name__ for o in pinned][:4])
+            return False
+        del pinned
+        if self.is_tree:
+            # (no size limits: an insert whose split could not load what it
+            # needs leaves the key in an over-full node - the completed
+            # change in a sound tree)
+            errs, w = structural_checks(self.c, self.is_mapping,
+                                        self.use_check_module, sizes=False)
+            if errs:
+                self.violation('structure-after-refused-load', op=op,
+                               args=brief(args), checker=errs[0][0],
+                               errors=errs[:4], stored=True,
+                               _raw=dict(op=op, args=rargs, walk=before,
+                                         present=self.m.sorted_keys()))
+                return False
+            self.walk = w
+            if self.check_sizes and self.sizes and w is not None and (
+                    w.max_leaf_fill > self.sizes[0] or
+                    w.max_int_fill > self.sizes[1] or
+                    w.root_size >= 2 * self.sizes[1]):
+                rec.ev(self.impl + ':load-refused:over-full-node')
+                self.check_sizes = False
+        try:
+            got = harness.contents(self.c, self.is_mapping)
+        except Exception as e:
+            self.violation('contents-raised', op=op, args=brief(args),
+                           after='refused load',
+                           detail='%s: %s' % (type(e).__name__, e))
+            return False
+        if eq(got, self._pre_contents):
+            rec.ev(self.impl + ':load-refused:unchanged')
+            return True
+        mo = call(self.m, op, margs)
+        if op in MUTATING_OPS and mo[0] == 'ok' and \
+                eq(got, self.m.contents()):
+            rec.ev(self.impl + ':load-refused:completed')
+            return True
+        self.violation('partial-change-after-refused-load', op=op,
+                       args=brief(args), observed=brief(got, 300),
+                       before=brief(self._pre_contents, 300))
+        return False
 
     # -- deliberately failing single-key calls --------------------------
     def bad_step(self):
@@ -401,7 +481,8 @@ class LockStep:
             want = got
         if self.structure:
             errs, w = structural_checks(self.c, self.is_mapping,
-                                        self.use_check_module)
+                                        self.use_check_module,
+                                        sizes=self.check_sizes)
             rec.ev('structure-checks')
             if errs:
                 self.violation('structure', op=op, args=brief(args),
